@@ -429,3 +429,20 @@ ADDED4 = {
 }
 for _k, _v in ADDED4.items():
     PLAN[_k]["rule"] = PLAN[_k]["rule"] + "; " + _v
+
+# after the tenth round of seeded changes
+ADDED5 = {
+    "C04": "empty and singleton cones are combined with infinite right-hand sides in nonnegative rows (the presolver then rewrites that very cone list)",
+    "C05": "a slice of base problems carries vacuous rows (b >= 1e20) in a nonnegative cone appended to the list, with presolve kept on in every variant; the concurrency workload excludes such problems because a sibling thread flips the bound there on purpose",
+    "C07": "pure feasibility problems (P = 0, q = 0) in the roundoff-floor workload; a block of a proper cone that is exactly zero is not interior",
+    "C08": "histories contain poison-and-repair steps (a NaN or +-Inf through an accepted partial update of q, b, A or P, usually a solve, then the model's value again); the first iterate of every live solve must report finite residuals, costs and mu wherever the fresh solver's first iterate does",
+    "C09": "a third of the solvers of the bound histories are built and solved on a spawned thread; get_infinity() there must return the value set on the main thread",
+    "C10": "a slice of scaling intervals that exclude 1 (all-zero rows/columns and an objective left unscaled because P or q is zero are exempt there)",
+    "C13": "a third of the argument vectors are structured (zero tail, basis vector, identity element, random zero pattern) and an eighth of the second-order scaling points lie on the cone axis",
+    "C15": "margins and symmetric initialisation are also evaluated on vectors in which whole blocks are exactly zero",
+    "C16": "every matrix-vector product with beta = 0 is repeated on an output buffer filled with NaN and infinities",
+    "C18": "15 % of the PSD cones have order 11-15 (dense block of nine or more vertices with a tail of small overlapping cliques)",
+    "C20": "a third of the buffer solvers have been solved before (1-2 iterations, silently); an infeasible end must report NaN objectives",
+}
+for _k, _v in ADDED5.items():
+    PLAN[_k]["rule"] = PLAN[_k]["rule"] + "; " + _v
